@@ -256,6 +256,16 @@ func put(tb *val.TupleBuilder, i int, v gv) {
 	}
 }
 
+// safeGet: a panic while reading back a stored value is a failed round trip, not a harness crash
+func safeGet(td *val.TupleDesc, i int, tup val.Tuple, orig gv) (tok string, same bool) {
+	defer func() {
+		if p := recover(); p != nil {
+			tok, same = fmt.Sprintf("panic: %v", p), false
+		}
+	}()
+	return get(td, i, tup, orig)
+}
+
 // get reads field i through the typed accessor and renders it as a canonical token;
 // also reports value equality with the original (the round-trip predicate).
 func get(td *val.TupleDesc, i int, tup val.Tuple, orig gv) (tok string, same bool) {
@@ -767,7 +777,7 @@ func (r *runner) runRT(k kase, askModel bool) {
 	})
 	e.Rep.Hit("rt:" + strconv.Itoa(int(enc)) + ":" + strings.SplitN(impl, " ", 2)[0])
 	if strings.HasPrefix(impl, "ok ") {
-		got, same := get(td, 0, tup, v)
+		got, same := safeGet(td, 0, tup, v)
 		if !same {
 			e.Rep.Violate(fmt.Sprintf("roundtrip/enc%d", enc), fmt.Sprintf("encoding %d: wrote %s, read back %s (field bytes %s)", enc, tok, got, impl[3:]), k)
 			return
@@ -890,7 +900,7 @@ func (r *runner) runPair(k kase) {
 		}
 		if mm := r.ask(fmt.Sprintf("tb %s %s %s", ds, pm, strings.Join(fields, " "))); mm != impl {
 			e.Rep.Disagree(k, impl, mm, fmt.Sprintf("row %d: tuple bytes", ri))
-			return
+			// no return: the property's own predicate below is evaluated on the implementation regardless
 		}
 		if !strings.HasPrefix(impl, "ok ") {
 			e.Rep.Hit("pair:build-" + impl)
@@ -945,7 +955,7 @@ func (r *runner) runPair(k kase) {
 			e.Rep.Hit("pair:trailing-null-trimmed")
 		}
 		for i, v := range row {
-			got, same := get(tdr, i, t, v)
+			got, same := safeGet(tdr, i, t, v)
 			if !same || tdr.IsNull(i, t) != v.null {
 				e.Rep.Violate(fmt.Sprintf("roundtrip/enc%d", v.enc), fmt.Sprintf("field %d: wrote %s, read back %s (null=%v)", i, toks[i], got, tdr.IsNull(i, t)), k)
 				return
